@@ -62,12 +62,25 @@ def sample(pid, tier, seed, n, only=None):
             rng = random.Random('%s/%s/%d/%d' % (pid, case.name, seed, i))
             w = ConcreteWorld({}, case.params, rng=rng)
             rec = dict(case=case.name, i=i)
+            limit = int(getattr(mod, 'SAMPLE_TIME_LIMIT_S', 0) or 0)      # harness opt-in: a sample that cannot terminate is rejected
             try:
-                case.fn(w)
+                if limit:
+                    import signal
+
+                    def _stop(signum, frame):
+                        raise HarnessReject('sample exceeded %d s (no progress)' % limit)
+                    signal.signal(signal.SIGALRM, _stop)
+                    signal.setitimer(signal.ITIMER_REAL, limit, 2.0)
+                try:
+                    case.fn(w)
+                finally:
+                    if limit:
+                        signal.setitimer(signal.ITIMER_REAL, 0)
                 rec['status'] = 'failed' if w.failures else 'passed'
                 rec['failures'] = [dict(label=f.label, detail=f.detail) for f in w.failures][:5]
             except HarnessReject as e:
                 rec['status'] = 'rejected'
+                rec['why'] = str(e)
             except Exception as e:
                 rec['status'] = 'failed'
                 rec['failures'] = [dict(label='no-exception', detail='%s: %s' % (type(e).__name__, e),
